@@ -149,6 +149,10 @@ def link_case(ctx, rng):
     return True
 
 
+class NotConverged(Exception):
+    pass
+
+
 def dmet_energy(geom, frags, solver, basis="sto-3g", loc="meta_lowdin", charge=0, spin=0):
     from tangelo import SecondQuantizedMolecule
     from tangelo.problem_decomposition import DMETProblemDecomposition
@@ -158,12 +162,25 @@ def dmet_energy(geom, frags, solver, basis="sto-3g", loc="meta_lowdin", charge=0
         mol = SecondQuantizedMolecule(geom, q=charge, spin=spin, basis=basis)
         d = DMETProblemDecomposition({"molecule": mol, "fragment_atoms": frags, "fragment_solvers": solver, "electron_localization": getattr(Localization, loc)})
         d.build()
-        e = d.simulate()
+        try:
+            e = d.simulate()
+        except RuntimeError as ex:
+            if "converge" in str(ex):
+                raise NotConverged(str(ex))          # scipy's root search gave up: no result to judge
+            raise
         resid = d._oneshot_loop(d.chemical_potential)
     return float(e), float(np.real(resid)), mol
 
 
 def dmet_case(ctx, rng, kind):
+    try:
+        return _dmet_case(ctx, rng, kind)
+    except NotConverged:
+        ctx.count("dmet:root-search-not-converged")
+        return True
+
+
+def _dmet_case(ctx, rng, kind):
     from tangelo.algorithms.classical import FCISolver
     loc = rng.choice(["meta_lowdin", "iao", "nao"])
     if kind == "exact":
